@@ -83,7 +83,7 @@ Fixpoint sloop (fuel : nat) (skey : str) (na : entries) (seq : Z)
           end
       | TEnd nm :: ts' =>
           match skey with
-          | [] => Panic                              (* n[skey] = "" with n == nil: assignment to entry in nil map *)
+          | [] => Err EOther                         (* fix 96a206a: an end tag before any start tag is an error *)
           | _ =>
               let name := full_name (xspace nm) (snake (xlocal nm)) in
               if negb (str_eqb skey name) then Err EOther       (* element ... not properly terminated *)
